@@ -502,7 +502,7 @@ theorem ctx_hit_facts (kp : Nat → Bool) (gd : Gdef) (pre : List TG) (cur : TG)
           · simp [Spec.Shape.undef] at h
           · exact pairAdjust_not_ctx _ _ _ _ _ _ _ h
   | gsub11 _ _ | gsub12 _ _ | gsub21 _ _ | gsub31 _ _ | gsub41 _ _ | gsub81 _ _ _ _ | gpos11 _ _ | gpos12 _ _
-  | gpos31 _ _ | gpos41 _ _ _ _ | gpos61 _ _ _ _ =>
+  | gpos31 _ _ | gpos41 _ _ _ _ _ | gpos61 _ _ _ _ =>
     exfalso
     simp only [matchSub, Spec.Shape.markAttach, Spec.Shape.attachTarget, Spec.Shape.need, Spec.Shape.undef,
       bind, Except.bind, pure, Except.pure] at h
